@@ -3,7 +3,7 @@ import numpy as np
 from hypothesis import strategies as st
 
 from vlib.runner import Clause
-from vlib import gen, objs, digest
+from vlib import gen, objs
 from vlib import refs_state as rs
 from vlib.tol import close, describe
 
@@ -12,8 +12,8 @@ import menpo.image
 import menpo.transform
 import menpo.model
 from menpo.base import Vectorizable
-from menpo.shape import PointCloud, TriMesh, ColouredTriMesh, TexturedTriMesh, LabelledPointUndirectedGraph
-from menpo.image import Image, MaskedImage, BooleanImage
+from menpo.shape import TriMesh, ColouredTriMesh, TexturedTriMesh, LabelledPointUndirectedGraph
+from menpo.image import MaskedImage
 
 PROPERTY = "C05"
 RULE = (
@@ -127,7 +127,7 @@ def check_as_vector(o, ctx, d0):
     ok = ctx.expect(v.ndim == 1 and v.shape == (n,), "as_vector.shape_vs_n_parameters:" + cls,
                     lambda: "as_vector().shape=%r n_parameters=%r" % (v.shape, n))
     ctx.expect(isinstance(n, (int, np.integer)) and not isinstance(n, bool), "n_parameters.not_int:" + cls, lambda: repr(n))
-    ctx.expect(v.flags.writeable is False, "as_vector.writeable:" + cls, "returned vector is writeable")
+    ctx.expect(v.flags.writeable is False, "as_vector.writeable", "%s: returned vector is writeable" % cls)
     frozen_after = set(rs.frozen_buffers(o))
     ctx.expect(frozen_after <= frozen_before, "as_vector.froze_owner:" + cls, lambda: "now read-only: %r" % sorted(frozen_after - frozen_before))
     dd = rs.ndiff(d0, rs.ndigest(o))
@@ -137,7 +137,7 @@ def check_as_vector(o, ctx, d0):
 
 def check_receiver_unchanged(o, ctx, d0, what):
     dd = rs.ndiff(d0, rs.ndigest(o))
-    ctx.expect(dd is None, "from_vector.receiver_changed:%s:%s" % (_sig_cls(o), what), lambda: repr(dd))
+    ctx.expect(dd is None, "from_vector.receiver_changed:" + _sig_cls(o), lambda: "%s: %r" % (what, dd))
 
 
 def write_probe(o, result, ctx, d0, skip=()):
@@ -361,7 +361,7 @@ def c_image(case, ctx):
     vk = o.as_vector(keep_channels=True)
     ctx.expect(isinstance(vk, np.ndarray) and vk.shape == (nch, want_v.size // nch) and np.array_equal(vk.reshape(-1), want_v),
                "layout.keep_channels:" + cls, lambda: "shape %r, want (%d, %d)" % (getattr(vk, "shape", None), nch, want_v.size // nch))
-    ctx.expect(vk.flags.writeable is False, "as_vector.writeable:" + cls, "keep_channels=True vector is writeable")
+    ctx.expect(vk.flags.writeable is False, "as_vector.writeable", "%s: keep_channels=True vector is writeable" % cls)
     dd = rs.ndiff(d0, rs.ndigest(o))
     ctx.expect(dd is None, "as_vector.mutated_owner:" + cls, lambda: repr(dd))
     # clause 2
